@@ -7,6 +7,7 @@
   never a SyntaxError, a NameError or `None`.
 -/
 import Pyab.Properties.C08_roundtrip
+import Pyab.Properties.C07_wf
 import Pyab.Properties.EvaluatorPremise
 import Pyab.Properties.C07_parse
 import Pyab.Generated.Config
